@@ -358,7 +358,13 @@ func (n *CNode) storeObs() []interface{} {
 				by = p.Num
 			}
 			// validity against this node's own body, by the driver's own crypto
-			q := classifyAgainst(bs, b)
+			// (memoised per body digest / signer / signature)
+			ck := bodyDigest(b) + "|" + v + "|" + bs.Signature
+			q, hit := n.w.sigMemo[ck]
+			if !hit {
+				q = classifyAgainst(bs, b)
+				n.w.sigMemo[ck] = q
+			}
 			sigs = append(sigs, map[string]interface{}{"by": by, "q": q, "k": digest([]byte(v))})
 		}
 		res = append(res, map[string]interface{}{"idx": i, "dig": bodyDigest(b), "sigs": sigs, "rr": b.RoundReceived()})
